@@ -105,8 +105,12 @@ impl Opts {
 /// `descending`); non-null values compare ascending with nested children using the derived child
 /// options {descending: false, nulls_first: nulls_first != descending} (documented in arrow-cmp
 /// `child_opts`), and the result is reversed when `descending`.
-pub fn cmp_opts(a: &Val, b: &Val, o: Opts) -> Ordering {
-    match (a.is_null(), b.is_null()) {
+/// `union_null`: whether a union slot whose selected child is null counts as a null at the union's own
+/// level (true for make_comparator / kernels via `logical_nulls`; false for the row format, which
+/// documents "union arrays have no top-level null marker ... ordered by their type id").
+pub fn cmp_gen(a: &Val, b: &Val, o: Opts, union_null: bool) -> Ordering {
+    let isn = |v: &Val| if union_null { v.is_null() } else { matches!(v, Val::Null) };
+    match (isn(a), isn(b)) {
         (true, true) => Ordering::Equal,
         (true, false) => {
             if o.nulls_first {
@@ -123,16 +127,23 @@ pub fn cmp_opts(a: &Val, b: &Val, o: Opts) -> Ordering {
             }
         }
         (false, false) => {
-            let c = cmp_nonnull(a, b, o.nulls_first != o.descending);
+            let c = cmp_nonnull_gen(a, b, o.nulls_first != o.descending, union_null);
             if o.descending { c.reverse() } else { c }
         }
     }
 }
+pub fn cmp_opts(a: &Val, b: &Val, o: Opts) -> Ordering {
+    cmp_gen(a, b, o, true)
+}
+/// the order the row format documents
+pub fn cmp_row(a: &Val, b: &Val, o: Opts) -> Ordering {
+    cmp_gen(a, b, o, false)
+}
 
-fn cmp_seq(x: &[Val], y: &[Val], child_nf: bool) -> Ordering {
+fn cmp_seq(x: &[Val], y: &[Val], child_nf: bool, union_null: bool) -> Ordering {
     let co = Opts { descending: false, nulls_first: child_nf };
     for (a, b) in x.iter().zip(y.iter()) {
-        match cmp_opts(a, b, co) {
+        match cmp_gen(a, b, co, union_null) {
             Ordering::Equal => {}
             r => return r,
         }
@@ -141,6 +152,10 @@ fn cmp_seq(x: &[Val], y: &[Val], child_nf: bool) -> Ordering {
 }
 
 pub fn cmp_nonnull(a: &Val, b: &Val, child_nf: bool) -> Ordering {
+    cmp_nonnull_gen(a, b, child_nf, true)
+}
+
+pub fn cmp_nonnull_gen(a: &Val, b: &Val, child_nf: bool, un: bool) -> Ordering {
     match (a, b) {
         (Val::Bool(x), Val::Bool(y)) => (*x as u8).cmp(&(*y as u8)),
         (Val::I(x), Val::I(y)) => x.cmp(y),
@@ -160,9 +175,9 @@ pub fn cmp_nonnull(a: &Val, b: &Val, child_nf: bool) -> Ordering {
             }
             x.len().cmp(&y.len())
         }
-        (Val::List(x), Val::List(y)) => cmp_seq(x, y, child_nf).then(x.len().cmp(&y.len())),
-        (Val::Struct(x), Val::Struct(y)) => cmp_seq(x, y, child_nf),
-        (Val::Union(xt, xv), Val::Union(yt, yv)) => xt.cmp(yt).then_with(|| cmp_opts(xv, yv, Opts { descending: false, nulls_first: child_nf })),
+        (Val::List(x), Val::List(y)) => cmp_seq(x, y, child_nf, un).then(x.len().cmp(&y.len())),
+        (Val::Struct(x), Val::Struct(y)) => cmp_seq(x, y, child_nf, un),
+        (Val::Union(xt, xv), Val::Union(yt, yv)) => xt.cmp(yt).then_with(|| cmp_gen(xv, yv, Opts { descending: false, nulls_first: child_nf }, un)),
         _ => panic!("model: comparing values of different kinds: {a:?} vs {b:?}"),
     }
 }
@@ -282,6 +297,14 @@ fn d256_of(s: &str) -> Val {
     Val::D256(hi, lo)
 }
 
+/// the value that plays "null element" for a child of type `ty` (unions have no validity of their own)
+pub fn null_of(ty: &Ty) -> Val {
+    match ty {
+        Ty::Union(_, cs) => Val::Union(cs[0].0, Box::new(null_of(&cs[0].1))),
+        _ => Val::Null,
+    }
+}
+
 /// non-null alphabet of a type
 pub fn alphabet_nn(ty: &Ty) -> Vec<Val> {
     use DataType::*;
@@ -382,13 +405,13 @@ pub fn alphabet_nn(ty: &Ty) -> Vec<Val> {
             let a = alphabet_nn(c);
             let (x, y) = (a[0].clone(), a[1].clone());
             let l = |v: &[&Val]| Val::List(v.iter().map(|x| (*x).clone()).collect());
-            let n = Val::Null;
+            let n = null_of(c);
             vec![l(&[]), l(&[&x]), l(&[&x, &n]), l(&[&n]), l(&[&x, &y]), l(&[&y]), l(&[&n, &x]), l(&[&x, &x])]
         }
         Ty::Fsl(n, c) => {
             let a = alphabet_nn(c);
             let (x, y) = (a[0].clone(), a[1].clone());
-            let nl = Val::Null;
+            let nl = null_of(c);
             match n {
                 0 => vec![Val::List(vec![])],
                 1 => vec![Val::List(vec![x]), Val::List(vec![nl]), Val::List(vec![y])],
@@ -411,7 +434,7 @@ pub fn alphabet_nn(ty: &Ty) -> Vec<Val> {
                 return vec![Val::Struct(vec![])];
             }
             let als: Vec<Vec<Val>> = fs.iter().map(alphabet_nn).collect();
-            let pick = |sel: &[usize]| Val::Struct(sel.iter().enumerate().map(|(i, s)| if *s == 0 { Val::Null } else { als[i][(*s - 1) % als[i].len()].clone() }).collect());
+            let pick = |sel: &[usize]| Val::Struct(sel.iter().enumerate().map(|(i, s)| if *s == 0 { null_of(&fs[i]) } else { als[i][(*s - 1) % als[i].len()].clone() }).collect());
             // selector per field: 0 = null, k = k-th letter
             let n = fs.len();
             let mut out = vec![];
@@ -978,16 +1001,18 @@ fn build_map(kty: &Ty, vty: &Ty, vals: &[Val], g: bool, alt: bool) -> ArrayRef {
 }
 
 fn build_union(dense: bool, cs: &[(i8, Ty)], vals: &[Val], g: bool, alt: bool) -> ArrayRef {
+    // a literal Null (filler under a null parent) is realised as a null of the first branch
     let type_ids: Vec<i8> = vals
         .iter()
         .map(|v| match v {
             Val::Union(t, _) => *t,
+            Val::Null => cs[0].0,
             _ => panic!("expected Union, got {v:?}"),
         })
         .collect();
     let inner = |v: &Val| match v {
         Val::Union(_, x) => (**x).clone(),
-        _ => unreachable!(),
+        _ => Val::Null,
     };
     let fields = union_fields(cs);
     if dense {
@@ -1246,4 +1271,61 @@ pub fn extract(a: &dyn Array) -> Vec<Val> {
 /// `a.to_data().validate_full()` as a Result<(), String>
 pub fn validate(a: &dyn Array) -> Result<(), String> {
     a.to_data().validate_full().map_err(|e| e.to_string())
+}
+
+// -------------------------------------------------------------------------------------------------
+// JSON form of values (replay files)
+
+pub fn val_to_json(v: &Val) -> vcore::serde_json::Value {
+    use vcore::serde_json::json;
+    match v {
+        Val::Null => vcore::serde_json::Value::Null,
+        Val::Bool(b) => json!(b),
+        Val::I(i) => json!({"i": i.to_string()}),
+        Val::D256(h, l) => json!({"d": [h.to_string(), l.to_string()]}),
+        Val::F16(b) => json!({"f16": b}),
+        Val::F32(b) => json!({"f32": b}),
+        Val::F64(b) => json!({"f64": b.to_string()}),
+        Val::DT(d, m) => json!({"dt": [d, m]}),
+        Val::MDN(m, d, n) => json!({"mdn": [m, d, n.to_string()]}),
+        Val::B(b) => json!({"b": b.iter().map(|x| format!("{x:02x}")).collect::<String>()}),
+        Val::List(x) => json!({"l": x.iter().map(val_to_json).collect::<Vec<_>>()}),
+        Val::Struct(x) => json!({"s": x.iter().map(val_to_json).collect::<Vec<_>>()}),
+        Val::Union(t, x) => json!({"u": [t, val_to_json(x)]}),
+    }
+}
+pub fn val_from_json(j: &vcore::serde_json::Value) -> Val {
+    use vcore::serde_json::Value as J;
+    match j {
+        J::Null => Val::Null,
+        J::Bool(b) => Val::Bool(*b),
+        J::Object(o) => {
+            let (k, v) = o.iter().next().expect("value object");
+            let s = |x: &J| x.as_str().unwrap().to_string();
+            match k.as_str() {
+                "i" => Val::I(s(v).parse().unwrap()),
+                "d" => Val::D256(s(&v[0]).parse().unwrap(), s(&v[1]).parse().unwrap()),
+                "f16" => Val::F16(v.as_u64().unwrap() as u16),
+                "f32" => Val::F32(v.as_u64().unwrap() as u32),
+                "f64" => Val::F64(s(v).parse().unwrap()),
+                "dt" => Val::DT(v[0].as_i64().unwrap() as i32, v[1].as_i64().unwrap() as i32),
+                "mdn" => Val::MDN(v[0].as_i64().unwrap() as i32, v[1].as_i64().unwrap() as i32, s(&v[2]).parse().unwrap()),
+                "b" => {
+                    let h = s(v);
+                    Val::B((0..h.len() / 2).map(|i| u8::from_str_radix(&h[2 * i..2 * i + 2], 16).unwrap()).collect())
+                }
+                "l" => Val::List(v.as_array().unwrap().iter().map(val_from_json).collect()),
+                "s" => Val::Struct(v.as_array().unwrap().iter().map(val_from_json).collect()),
+                "u" => Val::Union(v[0].as_i64().unwrap() as i8, Box::new(val_from_json(&v[1]))),
+                other => panic!("bad value key {other}"),
+            }
+        }
+        other => panic!("bad value json {other}"),
+    }
+}
+pub fn col_to_json(c: &[Val]) -> vcore::serde_json::Value {
+    vcore::serde_json::Value::Array(c.iter().map(val_to_json).collect())
+}
+pub fn col_from_json(j: &vcore::serde_json::Value) -> Vec<Val> {
+    j.as_array().map(|a| a.iter().map(val_from_json).collect()).unwrap_or_default()
 }
